@@ -37,7 +37,7 @@ def rnd_history(rnd, nops):
         k = rnd.random()
         s = lambda: rnd.randint(1, 12)
         if k < 0.15 and nmaps < 4:
-            prog.append({"op": "create", "a": {"kind": rnd.choice(["owned", "owned", "raw"])}})
+            prog.append({"op": "create", "a": {"kind": rnd.choice(["owned", "owned", "owned", "raw", "raw", "failed_build", "failed_wrap"])}})
             nmaps += 1
         elif k < 0.27:
             n = rnd.choice([1, 2, 2, 3])
@@ -69,10 +69,8 @@ def dynamic(ctx):
     ctx.add_mc(r, "MC_Ownership.quick.cfg")
     ctx.cov["exhaustive"] = True
     cfg = "Gen_Ownership.quick.cfg" if ctx.tier == "quick" else "Gen_Ownership.thorough.cfg"
-    r = tlc_must_pass(TLA, os.path.join(SPEC, cfg), "gen_own", workers=8, timeout=1800)
+    r, inits, edges = gen_run(TLA, os.path.join(SPEC, cfg), "gen_own", workers=8, timeout=1800)
     ctx.add_mc(r, cfg)
-    inits = parse_tagged(r.out_path, "INIT")
-    edges = parse_tagged(r.out_path, "EDGE")
     tests = edges_to_tests(inits, edges, 12000 if ctx.tier == "quick" else 150000, ctx.seed)
     prog = []
     for n, t in enumerate(tests):
